@@ -1026,7 +1026,13 @@ where
                                 }
 
                                 if query_router.query_parser_enabled() {
-                                    let _ = query_router.infer(&ast);
+                                    // The server is picked when the batch is complete, for all of it.
+                                    let earlier_parse_in_batch = self
+                                        .extended_protocol_data_buffer
+                                        .iter()
+                                        .any(|data| matches!(data, ExtendedProtocolData::Parse { .. }));
+                                    let _ = query_router
+                                        .infer_for_batch(&ast, earlier_parse_in_batch);
                                 }
                             }
                             Err(error) => {
